@@ -8,14 +8,17 @@ META = {
     "technique": "TLC checks the round-trip / normal-form / idempotence / no-16-bit-wrap theorems of Layout.tla on every "
                  "record of the finite field domain (spec/mc/MCLayout.tla) and emits every record; each is concretised "
                  "(seeded random ids, counters, times, payload bytes) and run through the real "
-                 "parse_dlt_with_storage_header -> DltMessage::to_write -> parse -> to_write; whole generated files go "
+                 "parse_dlt_with_storage_header -> DltMessage::to_write -> parse -> to_write, and additionally through the public "
+                 "DltStandardHeader::to_write with the ECU id and / or a session id IN the standard header (re-read, re-exported); "
+                 "whole generated files go "
                  "through the real `adlt convert -o` binary twice; every recorded execution is validated by TLC against "
                  "the contract LayoutTrace.tla, which recomputes the expectation from the logged ORIGINAL fields",
     "design_ref": "DESIGN.md section 6, C02",
     "level_text": "Exhaustive on the model over all 32 htyp flag combinations x version bits x payload classes "
                   "{0,1,2,max-1,max} (max = 65535 - headers of that shape) x micros {0,999999}; every such record plus "
                   "seeded random messages (payload 0..max) executed on the real code, the contract evaluated by TLC on "
-                  "each; files of 120+ messages of all shapes exported and re-exported by the adlt binary.",
+                  "each (plus the three ECU id / session id variants of the standard-header writer wherever the longer header "
+                  "fits the len field); files of 120+ messages of all shapes exported and re-exported by the adlt binary.",
     "level_note": "Trusted: TLC, the driver's byte builder and field projection, 2x31-bit payload hashes. Narrowed: a "
                   "message with version bits != 1 may be refused by the parser (nothing claimed then); which flags/len "
                   "to_write chooses is not judged (deviation from Layout's normal form is reported as design drift "
@@ -55,6 +58,16 @@ def binding_selftest(ctx, cases):
     put(rt[2], a); expect.add(rt[2])
     a = json.loads(json.dumps(cases[rt[3]]))
     put(rt[3], a[:1]); expect.add(rt[3])                            # event deleted: case never ends
+    wx = [k for k, evs in cases.items() if k not in rt and evs[0]["hdr"]["kind"] == "rt" and len(evs) == 2 and evs[1]["ev"] == "rt"
+          and len(evs[1].get("wx", [])) == 3 and evs[1]["m"]["payLen"] > 0][:2]
+    if len(wx) < 2:
+        raise c.ToolError("binding self-test: not enough accepted rt cases with ECU / session id variants")
+    a = json.loads(json.dumps(cases[wx[0]]))
+    a[1]["wx"][0]["p"]["v"]["ecu"][0] ^= 1                          # ECU id in the standard header read back differently
+    put(wx[0], a); expect.add(wx[0])
+    a = json.loads(json.dumps(cases[wx[1]]))
+    a[1]["wx"][2]["p"]["consumed"] -= 4                             # session id variant: not exactly the bytes written
+    put(wx[1], a); expect.add(wx[1])
     if fl:
         a = json.loads(json.dumps(cases[fl[0]]))
         del a[len(a) // 2]                                          # one exported message missing
@@ -147,11 +160,15 @@ def check(ctx):
                 "file through `adlt convert -o` twice; non-trivial = the original was parsed and rewritten; distinct by "
                 "(htyp byte, payload length, micros, source)")
     seen, nfmsg, refused = set(), 0, 0
+    nwx = {"ecu_id": 0, "session_id": 0, "both": 0, "does_not_fit": 0}
     for k, evs in cases.items():
         for e in evs[1:]:
             if e["ev"] == "rt":
                 if e["p1"]["ok"]:
                     seen.add((e["p1"]["v"]["htyp"], e["m"]["payLen"], e["m"]["micros"]))
+                    for x in e["wx"]:
+                        nwx["both" if x["weid"] and x["wsid"] else "ecu_id" if x["weid"] else "session_id"] += 1
+                    nwx["does_not_fit"] += 3 - len(e["wx"])
                 else:
                     refused += 1
             elif e["ev"] == "fmsg":
@@ -165,10 +182,11 @@ def check(ctx):
     ctx.extra["file_messages_compared"] = nfmsg
     ctx.extra["trace_events"] = info["lines"]
     ctx.extra["paths_hit"] = {"htyp_shapes_of_32": info["shapes"], "payload_0": info["payload_zero"],
-                              "len_field_65535": info["len_max"], "parser_refused_version": refused}
+                              "len_field_65535": info["len_max"], "parser_refused_version": refused,
+                              "std_header_writer_variants": nwx}
     ctx.extra["design_conformance"] = {"steps": ncases - nfiles, "mismatches": len(drift),
                                        "what": "htyp / len / size of the first write against Layout!Write (normal form)"}
-    if info["shapes"] < 32 or info["payload_zero"] == 0 or info["len_max"] == 0 or nfmsg == 0:
+    if info["shapes"] < 32 or info["payload_zero"] == 0 or info["len_max"] == 0 or nfmsg == 0 or not all(nwx.values()):
         raise c.ToolError("vacuity: a required path was not exercised: %s" % ctx.extra["paths_hit"])
     for k in list(cases)[:2] + list(cases)[-1:]:
         ctx.add_sample({"case": k, "trace": cases[k][:3]})
@@ -178,7 +196,8 @@ def check(ctx):
         ctx.violation("case %d rejected by LayoutTrace at line %s: %s" % (k, r[1] if r else "?", (r[2] if r else "unfinished")[:300]),
                       {"case": k, "trace": cases.get(k, []), "first_unmatched": r[2] if r else None,
                        "how": "bin/check C02 --replay <this file>"})
-    binding_selftest(ctx, {k: e for k, e in cases.items() if k not in v.violations})
+    if not v.violations:          # (a broken tree must end in exit 1, not in a tool error of the self-test)
+        binding_selftest(ctx, {k: e for k, e in cases.items() if k not in v.violations})
     ctx.assumptions = ["TLC and CommunityModules are correct",
                        "driver byte builder / projection (field extraction, 2x31-bit payload hashes) is correct",
                        "generated bytes contain no DLT\\x01/DLS\\x01 pattern outside the storage header (well-formed stream)",
